@@ -1,6 +1,7 @@
 import DiffxVerif.Model.Env
 import DiffxVerif.Model.Sections
 import DiffxVerif.Model.Split
+import DiffxVerif.Model.Header
 /-!
 # Model of `pydiffx.writer.DiffXWriter`  (python/pydiffx/writer.py)
 
@@ -101,10 +102,20 @@ def insertOpt (p : Bytes × HVal) : List (Bytes × HVal) → List (Bytes × HVal
   | q :: r => if p.1 ≤ q.1 then p :: q :: r else q :: insertOpt p r
 def sortOpts (l : List (Bytes × HVal)) : List (Bytes × HVal) := l.foldr insertOpt []
 
-/-- `_write_section_header`: the header bytes, or failure when it is not ASCII.
+/-- what `_write_section_header` refuses to write (`DiffXOptionValueError`): a value that is
+not made of option-value characters (`[A-Za-z0-9/_.-]+`: empty, spaces, `=`, `,`, non-ASCII …),
+or a `str` that a reader would turn into an integer (an encoding name such as `1252`) -/
+def valueRefused (v : HVal) : Bool :=
+  !(isAsciiText v.text && Header.valOk v.text.toAscii) ||
+  (match v with
+   | .str t => (match Header.convert t.toAscii with | .int _ => true | .str _ => false)
+   | .int _ => false)
+
+/-- `_write_section_header`: the header bytes, or failure when a value cannot be represented.
 `options`: value `none` = Python `None` (dropped). -/
 def renderHeader (sec : SecId) (options : List (Bytes × Option HVal)) : E Bytes :=
   let present := options.filterMap (fun p => p.2.map (fun v => (p.1, v)))
+  if present.any (fun p => valueRefused p.2) then throw .optionError else
   let sorted := sortOpts present
   let pairs : List Text := sorted.map (fun p => Text.ofAscii p.1 ++ [61] ++ p.2.text)
   let optionsStr : Text := (pairs.intersperse [44, 32]).flatten
